@@ -26,8 +26,15 @@ EXTRA = (
     '"\\nlead" scalar S "trail\\n" scalar T "a\\rb" scalar U " x" scalar V',
 )
 
+from oracles import grammar as GR  # noqa: E402
+from py_gql.lang.parser import parse_type  # noqa: E402
+
+# one witness text per expanded production alternative of the grammar (every combination of optional parts)
+SENTENCES = tuple(GR.sentence_texts())
+
 DOCS = tuple((e, t) for e, t in SEEDS if e.startswith("document")) + tuple(("document_ts_fragvars", s) for s in C18_SOURCES) + \
-    tuple(("document", t) for t, _ in G.TEMPLATES) + tuple(("document_ts_fragvars", s) for s in EXTRA)
+    tuple(("document", t) for t, _ in G.TEMPLATES) + tuple(("document_ts_fragvars", s) for s in EXTRA) + \
+    tuple((e if e in ("value", "type") else "document_ts_fragvars", t) for e, t in SENTENCES)
 
 
 def strip_loc(d):
@@ -45,6 +52,10 @@ def strip_loc(d):
 
 
 def parse_entry(entry, text):
+    if entry == "value":
+        return parse_value(text)
+    if entry == "type":
+        return parse_type(text)
     return parse(text, allow_type_system="_ts" in entry, experimental_fragment_variables="fragvars" in entry)
 
 
@@ -149,7 +160,7 @@ def _quoted_cases():
 CONDITIONS = [
     Cond(
         name="print_document", fn=_print_document, quick=100, thorough=300, per_path=60, shards_quick=16, shards_thorough=16,
-        bound="%d documents (grammar-covering seed corpus, visitor sources with every node kind and 0/1/2-element lists, execution templates, printer-specific texts: empty / leading-blank / quote- and backslash-ending block strings, "
+        bound="%d documents (grammar-covering seed corpus, visitor sources with every node kind and 0/1/2-element lists, execution templates, one witness text for EVERY expanded production alternative of the grammar (all combinations of optional parts), printer-specific texts: empty / leading-blank / quote- and backslash-ending block strings, "
               "astral characters, every escape, descriptions on fields, arguments, enum values, input fields) x 5 indent settings: print deterministic, re-parse equal up to positions, re-print identical" % len(DOCS),
         symbolic={"doc": "choice: document", "indent": "choice: indent setting"},
         witness={"doc": 0, "indent": 0},
